@@ -2,7 +2,7 @@
 # tools/take_mutant.sh <Cxx> <suffix> [check ids...] — confirm a sub-agent's seeded change (its OUT/patch.diff applied to a fresh
 # scratch copy of /repo outside /repo and /verif), store it as seeded/<Cxx>-<suffix>/, run checks against the copy (VERIF_REPO)
 # with the evidence files restored afterwards, remove the copy.
-pid=$1; suf=$2; shift 2; wt=${MDIR:-/tmp/m2}-$pid; dst=/verif/seeded/$pid-$suf
+pid=$1; suf=$2; shift 2; wt=${WT:-${MDIR:-/tmp/m2}-$pid}; dst=/verif/seeded/$pid-$suf
 [ -f $wt/OUT/patch.diff ] || { echo "no patch in $wt/OUT"; exit 2; }
 scratch=$(mktemp -d /var/tmp/bbtm.XXXXXX)
 rsync -a --exclude .git --exclude '*.egg-info' --exclude OUT /repo/ $scratch/
